@@ -81,6 +81,11 @@ def gen_cases(ctx, n):
     def mk(ext, stream, extra, level, strategy, prefix, pad, zero_pad=False):
         co = zlib.compressobj(level, zlib.DEFLATED, 15, 8, strategy)
         z = co.compress(stream) + co.flush()
+        if pad == 'zlib':
+            # padding that is itself a complete zlib stream (or starts like one): whatever follows the end of THE stream is padding, never more payload
+            tail = rng.choice([zlib.compress(b'INJECTED-BY-THE-PADDING'), zlib.compress(b''), zlib.compress(stream[:9] or b'x', 0), b'\x78\x9c', zlib.compress(b'A' * 50)[:-3]])
+            zpad = z + tail; zpad += bytes((-len(zpad)) % 8)
+            return dict(ext=ext, stream=stream, b0=rng.choice(JSONS), extra=extra, prefix=prefix, zpad=zpad, level=level, strategy=strategy)
         padn = (-len(z)) % 8 if pad == 'min' else ((-len(z)) % 8) + 8 * pad
         zpad = z + (bytes(padn) if zero_pad else bytes(rng.randrange(256) for _ in range(padn)))
         return dict(ext=ext, stream=stream, b0=rng.choice(JSONS), extra=extra, prefix=prefix, zpad=zpad, level=level, strategy=strategy)
@@ -106,6 +111,9 @@ def gen_cases(ctx, n):
         if a & 0xff == 0 and (found % 3 or a & 0xffff == 0 or tries > 60000):
             lvl = rng.choice([0, 1, 6, 9])
             cases.append(mk(EXTS[found % 3], stream, [], lvl, 0, bytes(8), rng.choice(['min', 1]), zero_pad=True)); found += 1
+    for k in range(10):
+        stream = bytes(rng.choice([0, 65, rng.randrange(256)]) for _ in range(rng.choice([0, 5, 64, 300])))
+        cases.append(mk(EXTS[k % 3], stream, [], rng.choice([0, 6, 9]), 0, bytes(8), 'zlib'))
     while len(cases) < n:
         ln = rng.choice([0, 1, 7, 8, 9, 100, 1000, rng.randrange(0, 5000)])
         stream = bytes(rng.choice([0, 0, 65, rng.randrange(256)]) for _ in range(ln))
@@ -290,6 +298,30 @@ def run(ctx):
         ctx.case(('raw-dump',))
         if open(dump, 'rb').read() != lib_read(small)['stream']:
             ctx.violation(dict(kind='raw-dump', file=os.path.relpath(small, common.REPO), how='ReplayParser(path, raw_data_output=f).get_info(); compare f with ReplayReader(path).get_replay_data().decrypted_data'))
+        # the NAME THE CALLER GIVES decides (extension check, key): a container reached through a symbolic link whose own name has another
+        # extension than its target is read exactly as a regular file of the link's name would be
+        sd = os.path.join(tmp, 'store'); os.makedirs(sd, exist_ok=True)
+        co = zlib.compressobj(6); z = co.compress(good) + co.flush(); z += bytes((-len(z)) % 8)
+        engine = {'clientVersionFromXml': vs_, 'marker': 'linked'}
+        for target_name, link_name in (('blob.bin', 'named.wowsreplay'), ('other.wotreplay', 'named2.wowsreplay'), ('real.wowsreplay', 'alias.txt'), ('real2.wowsreplay', 'alias.wotreplay')):
+            tgt = os.path.join(sd, target_name); lnk = os.path.join(tmp, link_name); reg = os.path.join(tmp, 'regular-' + link_name)
+            model_write('wowsreplay', tgt, json.dumps(engine).encode(), [], struct.pack('<II', len(good), len(z)), z)
+            shutil.copy(tgt, reg)
+            try: os.symlink(tgt, lnk)
+            except OSError: break
+            def outcome(pp):
+                try:
+                    i_ = RP(pp, strict=True).get_info(); return 'ok ' + digest_canon(dict(open=i_.get('open'), hidden=i_.get('hidden')))
+                except Exception as e: return 'raises ' + type(e).__name__
+            from tools.digest import canon as digest_canon
+            a_, b_ = outcome(lnk), outcome(reg)
+            ra, rb = lib_read(lnk), lib_read(reg)
+            ctx.case(('symlink', target_name, link_name), n=2); ctx.count('through-symlink', 2)
+            if a_ != b_ or ra != rb:
+                ctx.violation(dict(kind='name-decides', target=target_name, link=link_name, through_link=a_[:80], regular_file_of_that_name=b_[:80], reader_agrees=(ra == rb),
+                                   how='a well-formed 13.2.0 .wowsreplay container stored as <target>; os.symlink(target, link); ReplayParser(link, strict=True).get_info() and ReplayReader(link).get_replay_data() '
+                                       'must behave exactly as for a regular file named like the link with the same bytes'))
+                break
         ctx.obligation('correspondence: ReplayReader = extracted read_container (+ json/zlib oracles) on written, malformed and real containers', corr_bad is None,
                        '' if corr_bad is None else json.dumps(corr_bad)[:1500])
         if corr_bad is not None and not ctx.violations:
